@@ -148,7 +148,7 @@ _FOR_RX = re.compile(r'(?<![A-Za-z0-9_\.])for\s+(?P<pat>[^{};]+?)\s+in\s+(?P<e>[
 
 
 def _desugar_for(text, log, by_value):
-    """R2 / R2v / R12: `for PAT in E.iter()[.enumerate()|.copied()] {`  (also .iter_mut())
+    """R2 / R2v / R12: `for PAT in E.iter()[.take(N)][.enumerate()|.copied()] {`  (also .iter_mut())
        => `let mut __kN: usize = 0; while __kN < E.len() { let PAT' = ..E[__kN]; __kN += 1;`
     The increment comes before the body so `continue` keeps its meaning.  Refused when the body
     mentions a mutation of E (push/insert/remove/clear/truncate on E)."""
@@ -158,7 +158,7 @@ def _desugar_for(text, log, by_value):
     for mm in _FOR_RX.finditer(m):
         pat = text[mm.start('pat'):mm.end('pat')].strip()
         e = text[mm.start('e'):mm.end('e')].strip()
-        em = re.fullmatch(r'(?P<base>.+?)\.(?P<it>iter_mut|iter)\(\)(?P<ad>(\.enumerate\(\)|\.copied\(\)|\.cloned\(\))*)', e, re.S)
+        em = re.fullmatch(r'(?P<base>.+?)\.(?P<it>iter_mut|iter)\(\)(?P<take>\.take\(\s*[A-Za-z_][A-Za-z0-9_\.]*\s*\))?(?P<ad>(\.enumerate\(\)|\.copied\(\)|\.cloned\(\))*)', e, re.S)
         if not em:
             n += 1
             continue
@@ -196,7 +196,13 @@ def _desugar_for(text, log, by_value):
             bind = 'let %s = %s[%s];' % (elt, base, k)
         else:
             bind = 'let %s = &%s[%s];' % (elt, base, k)
-        new = 'let mut %s: usize = 0; while %s < %s.len() { ' % (k, k, base)
+        take = em.group('take')
+        if take:
+            # `.take(N)` directly after iter(): at most N elements (N a plain variable / field path, no side effects)
+            lim = take[len('.take('):-1].strip()
+            new = 'let mut %s: usize = 0; while %s < %s.len() && %s < %s { ' % (k, k, base, k, lim)
+        else:
+            new = 'let mut %s: usize = 0; while %s < %s.len() { ' % (k, k, base)
         if idxvar:
             new += 'let %s = %s; ' % (idxvar, k)
         new += bind + ' %s += 1;' % k
